@@ -231,6 +231,10 @@ def _test(e: ast.AST, taken: bool, st: PathState) -> None:
             t = T("lookup", self_map(rhs), _term(e.left, st), "get")
             st.tests.append((t, kind, taken, e))
             return
+        elif isinstance(op, (ast.Eq, ast.NotEq)):
+            # an equality between two terms (a looked-up entry and the component it is compared with)
+            st.tests.append((T("eq", _term(e.left, st), _term(rhs, st)), "eq", taken == isinstance(op, ast.Eq), e))
+            return
         else:
             kind = "other"
     t = _term(subj, st)
@@ -290,10 +294,38 @@ def _canon_body(ctx, cls, fn):
     return ctx.canon.body(fn, cls.module, cls, inline=private_helpers(cls))
 
 
+def _split_tests(stmts):
+    """if A and B: S else: T  ->  if A: (if B: S else: T) else: T   (and the `or` twin): every path then decides ONE operand per test,
+    so a failed conjunction is not taken for "every operand failed" """
+    import copy
+    out = []
+    for s_ in stmts:
+        if isinstance(s_, ast.If):
+            s_ = copy.copy(s_)
+            s_.body, s_.orelse = _split_tests(s_.body), _split_tests(s_.orelse)
+            t = s_.test
+            neg = False
+            while isinstance(t, ast.UnaryOp) and isinstance(t.op, ast.Not) and isinstance(t.operand, (ast.BoolOp, ast.UnaryOp)):
+                t, neg = t.operand, not neg
+            if isinstance(t, ast.BoolOp) and len(t.values) >= 2 and not any(isinstance(n, ast.NamedExpr) for n in ast.walk(t)):
+                yes, no = (s_.orelse, s_.body) if neg else (s_.body, s_.orelse)
+                first, rest = t.values[0], (t.values[1] if len(t.values) == 2 else ast.BoolOp(op=t.op, values=t.values[1:]))
+                if isinstance(t.op, ast.And):
+                    inner = ast.If(test=rest, body=copy.deepcopy(yes) or [ast.Pass()], orelse=copy.deepcopy(no))
+                    new = ast.If(test=first, body=_split_tests([ast.copy_location(inner, s_)]), orelse=copy.deepcopy(no))
+                else:
+                    inner = ast.If(test=rest, body=copy.deepcopy(yes) or [ast.Pass()], orelse=copy.deepcopy(no))
+                    new = ast.If(test=first, body=copy.deepcopy(yes) or [ast.Pass()], orelse=_split_tests([ast.copy_location(inner, s_)]))
+                out.append(ast.fix_missing_locations(ast.copy_location(new, s_)))
+                continue
+        out.append(s_)
+    return out
+
+
 def analyse_mutator(ctx, cls, fn: ast.FunctionDef, file) -> int:
     """returns number of paths analysed"""
     name = f"hugr.utils.BiMap.{fn.name}"
-    body = _canon_body(ctx, cls, fn)
+    body = _split_tests(_canon_body(ctx, cls, fn))
     for n in [x for b_ in body for x in ast.walk(b_)]:
         if isinstance(n, (ast.For, ast.While, ast.Try, ast.With)) and any(
                 self_map(x) for x in ast.walk(n) if isinstance(x, ast.Attribute)):
@@ -351,7 +383,11 @@ def analyse_mutator(ctx, cls, fn: ast.FunctionDef, file) -> int:
             # entry of OTHER[mp] holding v  (i.e. the pair that shares this value)
             pres = _present(st, T("lookup", OTHER[mp], v, "get"))
             conflict_del = [d for d in dels if d[2] == mp and d[3][0] == "lookup" and d[3][1] == OTHER[mp] and d[3][2] == v]
-            if pres is True and not conflict_del:
+            look = T("lookup", OTHER[mp], v, "get")
+            same_pair = any(kind == "eq" and taken and {t[1], t[2]} == {look, k} for t, kind, taken, _ in st.tests)
+            if pres is True and not conflict_del and same_pair:
+                pass        # the entry found IS the pair being stored (its partner equals the key stored under): overwritten in place
+            elif pres is True and not conflict_del:
                 fail("C18.R2", f"on the path where {OTHER[mp]} already holds {show(v)}, the stale entry "
                      f"{mp}[{OTHER[mp]}[{show(v)}]] is not evicted before {mp}[{show(k)}] = {show(v)}: "
                      "two keys would map to one value", node)
